@@ -92,12 +92,17 @@ def _accessor_agreement(label, t, nnz_first, **sig):
                 fail(label + ':iter-count', ax, **sig)
         prove(label + ':iter', and_(*claims), **sig)
         claims = []
-        pairs = list(t.iter_pairwise(axis='sample', tri=True, diag=False))
-        if len(pairs) != nc * (nc - 1) // 2:
-            fail(label + ':pairwise-count', str(len(pairs)), **sig)
-        for (d1, i1, m1), (d2, i2, m2) in pairs:
-            j1, j2 = si.index(str(i1)), si.index(str(i2))
-            claims += _vec_claims(label + ':pairwise', d1, [D[i][j1] for i in range(nr)], sig) + _vec_claims(label + ':pairwise', d2, [D[i][j2] for i in range(nr)], sig)
+        for pax, tri, diag in (('sample', True, False), ('observation', True, False), ('observation', False, True)):
+            n_ = nc if pax == 'sample' else nr
+            pairs = list(t.iter_pairwise(axis=pax, tri=tri, diag=diag))
+            if len(pairs) != (n_ * (n_ - 1) // 2 if tri else n_ * n_):
+                fail(label + ':pairwise-count', f"{pax} tri={tri} diag={diag}: {len(pairs)}", **sig)
+            idl = si if pax == 'sample' else oi
+            for (d1, i1, m1), (d2, i2, m2) in pairs:
+                j1, j2 = idl.index(str(i1)), idl.index(str(i2))
+                w1 = [D[i][j1] for i in range(nr)] if pax == 'sample' else list(D[j1])
+                w2 = [D[i][j2] for i in range(nr)] if pax == 'sample' else list(D[j2])
+                claims += _vec_claims(label + ':pairwise', d1, w1, sig) + _vec_claims(label + ':pairwise', d2, w2, sig)
     prove(label + ':pairwise', and_(*claims), **sig)
     claims = []
     tot = ssum(v for r in D for v in r)
